@@ -295,15 +295,18 @@ def _check_make_args_unique(run: Run, ctx, m) -> None:
     pushes = [o for o in ops if o.kind == "push"]
     pops = [o for o in ops if o.kind == "pop"]
     gvs = [c for c in calls_in(vl) if isinstance(c.func, ast.Attribute) and c.func.attr == "generic_visit"]
-    ok_order = len(pushes) == 1 and len(pops) == 1 and len(gvs) == 1
+    ok_order = len(pushes) >= 1 and len(pops) == 1 and len(gvs) == 1
     pb = qb = None
+    pbs = []
     if ok_order:
         cfg = fl.cfg
         gn = cfg.node_of(gvs[0])
-        pb, qb = _bulk(pushes[0]), _bulk(pops[0])
-        ok_order = pb is not None and qb is not None
+        pbs = [_bulk(p_) for p_ in pushes]
+        qb = _bulk(pops[0])
+        ok_order = all(x_ is not None for x_ in pbs) and qb is not None
         if ok_order:
-            ok_order = cfg.dominates(pb[0], gn) and cfg.dominates(gn, qb[0]) and cfg.postdominates(qb[0], gn) and pb[0] is not gn and qb[0] is not gn
+            ok_order = all(cfg.dominates(x_[0], gn) and x_[0] is not gn for x_ in pbs) and cfg.dominates(gn, qb[0]) and cfg.postdominates(qb[0], gn) and qb[0] is not gn
+            pb = pbs[0]
     from ..lib import pop_is_lifo
 
     for o_ in pops:
@@ -312,7 +315,18 @@ def _check_make_args_unique(run: Run, ctx, m) -> None:
     run.check(ok_order, "C02.R2", vl, vl.node, "renaming frames are pushed before and popped after the body is visited, on every path", "replace_args.visit_Lambda does not pair its pushes and pops around generic_visit: renamings leak out of (or are missing inside) the lambda's scope")
     if ok_order:
         n_push, n_pop = pb[1], qb[1]
-        same_len = _len_source(n_push) == _len_source(n_pop) and _len_source(n_push) is not None
+
+        def _parts(t_):
+            # a + b (list concatenation): the lengths add up
+            if t_[0] == "op" and t_[1] == "Add" and len(t_[2]) == 2:
+                return _parts(t_[2][0]) + _parts(t_[2][1])
+            if t_[0] == "concat":
+                return [y_ for x_ in t_[1:] for y_ in _parts(x_)] if all(isinstance(x_, tuple) for x_ in t_[1:]) else [t_]
+            return [t_]
+
+        push_parts = sorted(repr(_len_source(y_)) for x_ in pbs for y_ in _parts(x_[1]))
+        pop_parts = sorted(repr(_len_source(y_)) for y_ in _parts(n_pop))
+        same_len = (push_parts == pop_parts and "None" not in push_parts) or (_len_source(n_push) == _len_source(n_pop) and _len_source(n_push) is not None and len(pbs) == 1)
         run.check(same_len, "C02.R2", vl, stmt_of(pops[0].node), "as many pops as pushes", f"pushes iterate over {show(n_push)[:80]} but pops over {show(n_pop)[:80]}")
     # fresh names for the first lambda, identity (shadow) for nested ones
     from ..lib import unit as _unit
